@@ -78,7 +78,7 @@ theorem emitItem_eq (c : WalkCfg) (pfx : Str) (it : Item) (r : RunResult) :
     simp only [emitItem, Item.text, Item.isPage, Item.path, Bool.not_false, Bool.and_true]
     by_cases h : c.toStdout = true
     · simp [h]
-    · simp only [h, if_false]
+    · simp only [h]
       split
       · rfl
       · simp only [Bool.false_eq_true, if_false]
@@ -93,7 +93,7 @@ theorem emitItem_app (c : WalkCfg) (pfx : Str) (it : Item) (r : RunResult) :
   · rw [emitItem_of_error h, RunResult.app_of_error h]
   · have h' : r.error = none := by simpa using h
     rw [RunResult.app_of_ok h', emitItem_eq, emitItem_eq c pfx it {}]
-    simp only [h, if_false]
+    simp only [h]
     by_cases h2 : (c.toStdout && !it.isPage) = true
     · simp only [h2, if_true]
       apply RunResult.ext' <;> simp [h']
@@ -148,11 +148,11 @@ theorem emitItem_ok {c : WalkCfg} {pfx : Str} {it : Item} {r : RunResult} (hr : 
     · have := hok (by simp [Item.active, hp])
       cases ht : it.text c pfx with
       | error e => simp [ht, Except.isOk, Except.toBool] at this
-      | ok t => simp [h1, hp, Item.printed, Item.textD, ht, okText, hr]
+      | ok t => simp [h1, hp, Item.printed, Item.textD, ht, okText]
   · have := hok (by simp [Item.active, h1])
     cases ht : it.text c pfx with
     | error e => simp [ht, Except.isOk, Except.toBool] at this
-    | ok t => simp [h1, Item.write, Item.textD, ht, okText, hr]
+    | ok t => simp [h1, Item.write, Item.textD, ht, okText]
 
 theorem runItems_ok {c : WalkCfg} {pfx : Str} {items : List Item} {r : RunResult} (hr : r.error = none)
     (hok : ∀ it ∈ items, it.active c = true → (it.text c pfx).isOk = true) :
@@ -480,14 +480,18 @@ theorem emitPage_writes_of_stdout {c : WalkCfg} (h : c.toStdout = true) (pfx : O
   unfold emitPage
   split
   · rfl
-  · split <;> simp [h]
+  · split
+    · rfl
+    · simp
 
 theorem emitPage_stdout_of_file {c : WalkCfg} (h : c.toStdout = false) (pfx : Option Str) (rel : List Str)
     (name content : Str) (r : RunResult) : (emitPage c pfx rel name content r).stdout = r.stdout := by
   unfold emitPage
   split
   · rfl
-  · split <;> simp [h]
+  · split
+    · rfl
+    · simp [h]
 
 theorem emitPage_app (c : WalkCfg) (pfx : Option Str) (rel : List Str) (name content : Str) (r : RunResult) :
     emitPage c pfx rel name content r = r.app (emitPage c pfx rel name content {}) := by
@@ -508,7 +512,9 @@ theorem emitItem_writes_of_stdout {c : WalkCfg} (h : c.toStdout = true) (pfx : S
   · rfl
   · split
     · rfl
-    · split <;> simp [h]
+    · split
+      · rfl
+      · simp
 
 theorem emitItem_stdout_of_file {c : WalkCfg} (h : c.toStdout = false) (pfx : Str) (it : Item) (r : RunResult) :
     (emitItem c pfx it r).stdout = r.stdout := by
@@ -517,7 +523,9 @@ theorem emitItem_stdout_of_file {c : WalkCfg} (h : c.toStdout = false) (pfx : St
   · rfl
   · split
     · rfl
-    · split <;> simp [h]
+    · split
+      · rfl
+      · simp [h]
 
 theorem runItems_writes_of_stdout {c : WalkCfg} (h : c.toStdout = true) (pfx : Str) (items : List Item)
     (r : RunResult) : (runItems c pfx items r).writes = r.writes := by
@@ -1008,6 +1016,17 @@ theorem layout_paths_perm (items : List Item) :
 
 /-! ## facts for the toctrees (C14) -/
 
+theorem mem_stem {x : Char} {f : Str} (h : x ∈ stem f) : x ∈ f := by
+  unfold stem at h
+  split at h
+  · simp at h
+  · rename_i y rest heq
+    have h1 : x ∈ y :: rest := List.mem_cons_of_mem _ (List.mem_reverse.1 h)
+    rw [← heq] at h1
+    exact List.mem_reverse.1 ((List.dropWhile_sublist _).subset h1)
+
+
+
 theorem mem_survivingDirs {c : WalkCfg} {excl : List Str → Bool → Bool} {rel : List Str} {n : Str} :
     ∀ {l : List FsNode}, n ∈ survivingDirs c excl rel l ↔
       ∃ ch, FsNode.dir n ch ∈ l ∧ survives c excl rel n ch = true := by
@@ -1050,7 +1069,7 @@ theorem survivingDirs_sublist (c : WalkCfg) (excl : List Str → Bool → Bool) 
     | dir m ch =>
       simp only [survivingDirs, dirNames]
       split
-      · exact ih.cons₂ _
+      · exact ih.cons_cons _
       · exact ih.cons _
 
 theorem keptFiles_sublist (excl : List Str → Bool → Bool) (rel : List Str) (l : List FsNode) :
@@ -1117,6 +1136,165 @@ theorem dirItems_indexes (c : WalkCfg) (excl : List Str → Bool → Bool) (rel 
     intro f _
     by_cases h : isCMakeName f = true <;> simp [h, Option.bind]
     cases findFile f listing <;> rfl
+
+/-! ## distinct output paths, under the hypothesis that excludes the stem collisions -/
+
+theorem Processed.prefix {c : WalkCfg} {excl : List Str → Bool → Bool} {rel₀ rel : List Str}
+    {l₀ l : List FsNode} (h : Processed c excl rel₀ l₀ rel l) : ∃ q, rel = rel₀ ++ q := by
+  induction h with
+  | root => exact ⟨[], by simp⟩
+  | @sub _ _ n _ _ _ _ _ ih =>
+    obtain ⟨q, rfl⟩ := ih
+    exact ⟨q ++ [n], by simp⟩
+
+theorem dirItems_path {c : WalkCfg} {excl : List Str → Bool → Bool} {rel : List Str} {listing : List FsNode}
+    {it : Item} (h : it ∈ dirItems c excl rel listing) : ∃ x, it.path = rel ++ [x] := by
+  unfold dirItems at h
+  split at h
+  · simp at h
+  · rcases List.mem_cons.1 h with rfl | h
+    · exact ⟨_, rfl⟩
+    · obtain ⟨f, ct, rfl, _⟩ := mem_dirPages.1 h
+      exact ⟨_, rfl⟩
+
+theorem layout_path {c : WalkCfg} {excl : List Str → Bool → Bool} {rel : List Str} {listing : List FsNode}
+    {it : Item} (h : it ∈ layoutOf c excl rel listing) : ∃ q x, it.path = rel ++ q ++ [x] := by
+  obtain ⟨rel', l', hp, hi⟩ := mem_layoutOf_iff_processed.1 h
+  obtain ⟨q, rfl⟩ := hp.prefix
+  obtain ⟨x, hx⟩ := dirItems_path hi
+  exact ⟨q, x, hx⟩
+
+theorem dirPages_paths_sublist (rel : List Str) (listing : List FsNode) (names : List Str) :
+    ((dirPages rel listing names).map Item.path).Sublist
+      ((names.filter isCMakeName).map (fun f => rel ++ [stem f ++ lit ".rst"])) := by
+  induction names with
+  | nil => simp [dirPages]
+  | cons f fs ih =>
+    simp only [dirPages, List.filterMap_cons, List.filter_cons] at ih ⊢
+    by_cases hc : isCMakeName f = true
+    · simp only [hc, if_true]
+      cases hf : findFile f listing with
+      | none => simpa using ih.cons (rel ++ [stem f ++ lit ".rst"])
+      | some ct => simpa [Item.path] using ih.cons_cons (rel ++ [stem f ++ lit ".rst"])
+    · simpa [hc] using ih
+
+theorem dirItems_paths_nodup {c : WalkCfg} {excl : List Str → Bool → Bool} {rel : List Str} {listing : List FsNode}
+    (h1 : (((keptFiles excl rel listing).filter isCMakeName).map stem).Nodup)
+    (h2 : lit "index" ∉ ((keptFiles excl rel listing).filter isCMakeName).map stem) :
+    ((dirItems c excl rel listing).map Item.path).Nodup := by
+  unfold dirItems
+  split
+  · simp
+  · have hperm : (((sortStrs (keptFiles excl rel listing)).filter isCMakeName).map stem).Perm
+        (((keptFiles excl rel listing).filter isCMakeName).map stem) :=
+      ((sortStrs_perm _).filter _).map _
+    have hnd : (((sortStrs (keptFiles excl rel listing)).filter isCMakeName).map
+        (fun f => rel ++ [stem f ++ lit ".rst"])).Nodup := by
+      have := hperm.nodup_iff.2 h1
+      have e : (fun f => rel ++ [stem f ++ lit ".rst"]) = (fun s => rel ++ [s ++ lit ".rst"]) ∘ stem := rfl
+      rw [e, ← List.map_map]
+      exact List.Pairwise.map _ (fun a b hne h => hne (by
+        have := List.append_cancel_left h
+        simp only [List.cons.injEq, and_true] at this
+        exact List.append_cancel_right this)) this
+    rw [List.map_cons, List.nodup_cons]
+    refine ⟨?_, (dirPages_paths_sublist rel listing _).nodup hnd⟩
+    intro hmem
+    have := (dirPages_paths_sublist rel listing _).subset hmem
+    obtain ⟨f, hf, hfe⟩ := List.mem_map.1 this
+    simp only [Item.path] at hfe
+    have := List.append_cancel_left hfe
+    simp only [List.cons.injEq, and_true] at this
+    have hst : stem f = lit "index" := List.append_cancel_right (bs := lit ".rst") this
+    exact h2 (hperm.mem_iff.1 (List.mem_map.2 ⟨f, hf, hst⟩))
+
+theorem NoStemClash.sub {c : WalkCfg} {excl : List Str → Bool → Bool} {rel : List Str} {listing : List FsNode}
+    (h : NoStemClash c excl rel listing) (hr : c.recursive = true) {n : Str} {ch : List FsNode}
+    (hm : FsNode.dir n ch ∈ listing) (hs : survives c excl rel n ch = true) :
+    NoStemClash c excl (rel ++ [n]) ch :=
+  fun rel' l' hp => h rel' l' (Processed.trans (.sub .root hr hm hs) hp)
+
+theorem layoutOf_paths_nodup_aux {c : WalkCfg} {excl : List Str → Bool → Bool} {rel : List Str}
+    {listing : List FsNode} (hns : NoStemClash c excl rel listing)
+    (hsubs : c.recursive = true → ((subsLayout c excl rel listing).map Item.path).Nodup) :
+    ((layoutOf c excl rel listing).map Item.path).Nodup := by
+  rw [layoutOf, List.map_append, List.nodup_append]
+  refine ⟨dirItems_paths_nodup (hns rel listing .root).1 (hns rel listing .root).2, ?_, ?_⟩
+  · split
+    · exact hsubs ‹_›
+    · simp
+  · intro a ha b hb hab
+    subst hab
+    obtain ⟨it, hit, rfl⟩ := List.mem_map.1 ha
+    obtain ⟨x, hx⟩ := dirItems_path hit
+    split at hb
+    · obtain ⟨it', hit', hpe⟩ := List.mem_map.1 hb
+      obtain ⟨n, ch, _, _, hin⟩ := mem_subsLayout.1 hit'
+      obtain ⟨q, y, hy⟩ := layout_path hin
+      have := congrArg List.length (hpe.trans hx)
+      rw [hy] at this
+      simp at this
+    · simp at hb
+
+theorem subsLayout_paths_nodup (c : WalkCfg) (excl : List Str → Bool → Bool) (hrec : c.recursive = true) :
+    ∀ (l : List FsNode) (rel : List Str), listOk l = true → (dirNames l).Nodup →
+      (∀ n ch, FsNode.dir n ch ∈ l → survives c excl rel n ch = true → NoStemClash c excl (rel ++ [n]) ch) →
+      ((subsLayout c excl rel l).map Item.path).Nodup
+  | [], _, _, _, _ => by simp [subsLayout]
+  | .file _ _ :: rest, rel, hok, hnd, h => by
+    simp only [listOk, Bool.and_eq_true] at hok
+    rw [subsLayout_file]
+    exact subsLayout_paths_nodup c excl hrec rest rel hok.2 (by simpa [dirNames] using hnd)
+      (fun n ch hm hs => h n ch (List.mem_cons_of_mem _ hm) hs)
+  | .dir n ch :: rest, rel, hok, hnd, h => by
+    simp only [listOk, Bool.and_eq_true, nodeOk_dir] at hok
+    simp only [dirNames, List.nodup_cons] at hnd
+    have hch := (treeOk_iff ch).1 hok.1
+    rw [subsLayout_dir, List.map_append, List.nodup_append]
+    refine ⟨?_, subsLayout_paths_nodup c excl hrec rest rel hok.2 hnd.2
+      (fun n ch hm hs => h n ch (List.mem_cons_of_mem _ hm) hs), ?_⟩
+    · by_cases hs : survives c excl rel n ch = true
+      · rw [if_pos hs]
+        have hns := h n ch (List.mem_cons_self ..) hs
+        exact layoutOf_paths_nodup_aux hns (fun _ =>
+          subsLayout_paths_nodup c excl hrec ch (rel ++ [n]) hch.2 hch.1
+            (fun m ch' hm hs' => hns.sub hrec hm hs'))
+      · simp [hs]
+    · intro a ha b hb hab
+      subst hab
+      by_cases hs : survives c excl rel n ch = true
+      · rw [if_pos hs] at ha
+        obtain ⟨it, hit, rfl⟩ := List.mem_map.1 ha
+        obtain ⟨q, x, hx⟩ := layout_path hit
+        obtain ⟨it', hit', hpe⟩ := List.mem_map.1 hb
+        obtain ⟨m, ch', hm, _, hin⟩ := mem_subsLayout.1 hit'
+        obtain ⟨q', y, hy⟩ := layout_path hin
+        have heq := hx.symm.trans (hpe.symm.trans hy)
+        simp only [List.append_assoc] at heq
+        have := List.append_cancel_left heq
+        simp only [List.cons_append, List.cons.injEq] at this
+        exact hnd.1 (this.1 ▸ mem_dirNames.2 ⟨ch', hm⟩)
+      · simp [hs] at ha
+
+/-- on a tree with distinct sub-directory names and without stem collisions, all generated paths are distinct -/
+theorem layoutOf_paths_nodup {c : WalkCfg} {excl : List Str → Bool → Bool} {rel : List Str}
+    {listing : List FsNode} (htree : treeOk listing = true) (hns : NoStemClash c excl rel listing) :
+    ((layoutOf c excl rel listing).map Item.path).Nodup := by
+  have h := (treeOk_iff listing).1 htree
+  exact layoutOf_paths_nodup_aux hns (fun hrec =>
+    subsLayout_paths_nodup c excl hrec listing rel h.2 h.1 (fun m ch' hm hs' => hns.sub hrec hm hs'))
+
+/-- a processed directory is the start directory or lies below one of its surviving sub-directories -/
+theorem Processed.head {c : WalkCfg} {excl : List Str → Bool → Bool} {rel rel' : List Str}
+    {l l' : List FsNode} (h : Processed c excl rel l rel' l') :
+    (rel' = rel ∧ l' = l) ∨ ∃ n ch, c.recursive = true ∧ FsNode.dir n ch ∈ l ∧
+      survives c excl rel n ch = true ∧ Processed c excl (rel ++ [n]) ch rel' l' := by
+  induction h with
+  | root => exact Or.inl ⟨rfl, rfl⟩
+  | @sub relp lp n ch hp hr hm hs ih =>
+    rcases ih with ⟨rfl, rfl⟩ | ⟨n0, ch0, hr0, hm0, hs0, hp0⟩
+    · exact Or.inr ⟨n, ch, hr, hm, hs, .root⟩
+    · exact Or.inr ⟨n0, ch0, hr0, hm0, hs0, .sub hp0 hr hm hs⟩
 
 /-! ## evaluating `sortStrs` (for the concrete examples)
 
@@ -1305,5 +1483,42 @@ theorem ex_ok_out : ∀ p ∈ pagesOf exCfgOut exExcl [] exTree,
 theorem ex_ok_flat : ∀ p ∈ pagesOf exCfgFlat exExcl [] exTree,
     (page exCfgFlat (some (lit "P")) (relPath p) p.2.2).isOk = true := by
   rw [ex_pages_flat, ex_pages]; decide +kernel
+
+theorem ex_sub_processed : Processed exCfg exExcl [] exTree [lit "sub"]
+    [ .file (lit "c.cmake") [], .dir (lit "deep") [.file (lit "d.cmake") []],
+      .dir (lit "nocmake") [.file (lit "x.txt") []] ] :=
+  .sub .root rfl (n := lit "sub") (by simp [exTree]) (by decide)
+
+
+theorem ex_noStemClash : NoStemClash exCfg exExcl [] exTree := by
+  intro rel' l' h
+  rcases h.head with ⟨rfl, rfl⟩ | ⟨n, ch, _, hm, hs, h1⟩
+  · decide
+  · simp only [exTree, List.mem_cons, FsNode.dir.injEq, reduceCtorEq, false_or, List.not_mem_nil, or_false] at hm
+    rcases hm with ⟨rfl, rfl⟩ | ⟨rfl, rfl⟩ | ⟨rfl, rfl⟩
+    · rcases h1.head with ⟨rfl, rfl⟩ | ⟨n, ch, _, hm, hs, h2⟩
+      · decide
+      · simp only [List.mem_cons, FsNode.dir.injEq, reduceCtorEq, false_or, List.not_mem_nil, or_false] at hm
+        rcases hm with ⟨rfl, rfl⟩ | ⟨rfl, rfl⟩
+        · rcases h2.head with ⟨rfl, rfl⟩ | ⟨n, ch, _, hm, _, _⟩
+          · decide
+          · simp at hm
+        · exact absurd hs (by decide)
+    · exact absurd hs (by decide)
+    · exact absurd hs (by decide)
+
+
+theorem eq_error_of_errOf {x : Except Err Str} {e : Err} (h : errOf x = some e) : x = .error e := by
+  cases x <;> simp_all [errOf]
+
+
+theorem exInDir_ok : (aloneOut exCfg exInDir).error = none ∧
+    (document exCfg exInDir.excl exInDir.exclRoot exInDir.inp {}).2 = false :=
+  ⟨walkDir_error_none ex_treeOk rfl (items_ok_of_file (by decide) ex_ok), rfl⟩
+
+theorem exInFile_ok : (aloneOut exCfg exInFile).error = none ∧
+    (document exCfg exInFile.excl exInFile.exclRoot exInFile.inp {}).2 = false := by
+  constructor <;> decide +kernel
+
 
 end Cminx
